@@ -44,12 +44,12 @@ theorem pow_one_pipe {ty : TokType} (h0 : 0 < specPow ty) (h1 : specPow ty ≤ 1
   cases ty <;> simp [specPow] at h0 h1 ⊢
 
 section
-variable {A B : Around} (hA : A.e.ty = .eof)
+variable {A B : Around} (hA : A.e.ty = .eof) (hAr : A.rest = [])
 
-include hA in
+include hA hAr in
 /-- the outermost loop of a phrase: when something follows that it does not stop at, it reads the
     phrase as before and then goes on -/
-theorem loop0_resume (hB : B.e.ty = .eof ∨ B.e.ty = .pipe) {c : Call N} {o : Out N} (h : R T c o) :
+theorem loop0_resume (hB : followerOK B.e.ty = true) {c : Call N} {o : Out N} (h : R T c o) :
     ∀ left p a pEnd, c = .loop 0 left p → o = .node a pEnd → pEnd.after = A.e :: A.rest →
       ∀ n p', 1 ≤ n → CRel A B n p p' →
         ∃ pEnd', CRel A B n pEnd pEnd' ∧ ∀ o', R T (.loop 0 a pEnd') o' → R T (.loop 0 left p') o' := by
@@ -64,12 +64,12 @@ theorem loop0_resume (hB : B.e.ty = .eof ∨ B.e.ty = .pipe) {c : Call N} {o : O
     injection hc with h1 h2 h3
     subst h1; subst h2; subst h3
     obtain ⟨r', ha', hadv⟩ := hrel.cons hA hafter (pow_pos_ne_eof (by rw [← T_power]; exact hlt))
-    obtain ⟨p1', hp1, hR1⟩ := R_moves hA hB hled (n + 1) p'.advance (by simp only [need]; omega) hadv trivial
+    obtain ⟨p1', hp1, hR1⟩ := R_moves hA hB hAr hled (n + 1) p'.advance (by simp only [need]; omega) hadv trivial
     obtain ⟨pEnd', hrel', hres⟩ := ih2 _ _ _ _ rfl ho hend (n + 1) p1' (by omega) hp1
     exact ⟨pEnd', hrel'.mono (Nat.le_succ n), fun o' ho' => R.step ha' hlt hR1 (hres o' ho')⟩
   | _ => intro left p a pEnd hc; cases hc
 
-include hA in
+include hA hAr in
 /-- a chain of top-level pipes, replayed with another left operand that evaluates as `G` followed by the old one -/
 theorem outer_chain (hB : B.e.ty = .eof) {c : Call N} {o : Out N} (h : R T c o) :
     ∀ M q b qEnd, c = .loop 0 M q → o = .node b qEnd → qEnd.after = A.e :: A.rest →
@@ -99,7 +99,7 @@ theorem outer_chain (hB : B.e.ty = .eof) {c : Call N} {o : Out N} (h : R T c o) 
     cases hled with
     | @ledPipe _ _ r _ hexpr =>
       obtain ⟨r', ha', hadv⟩ := hrel.cons hA hafter (by rw [hty]; decide)
-      obtain ⟨p1', hp1, hR1⟩ := R_moves hA (Or.inl hB) hexpr (n + 1) q'.advance (Nat.zero_le _) hadv
+      obtain ⟨p1', hp1, hR1⟩ := R_moves hA (by rw [hB]; rfl) hAr hexpr (n + 1) q'.advance (Nat.zero_le _) hadv
         (Or.inl (by rw [hB]; show (0 : Nat) ≤ 1; omega))
       obtain ⟨t3, rest3, hafter3, hnot3⟩ := expr_stops hexpr
       obtain ⟨X, qEnd', hRX, hrelX, hev⟩ := ih2 _ _ _ _ rfl ho hend ⟨t3, rest3, hafter3, by
@@ -112,7 +112,7 @@ theorem outer_chain (hB : B.e.ty = .eof) {c : Call N} {o : Out N} (h : R T c o) 
     | ledCmp hop _ => simp [Cmp.ofTok] at hop
   | _ => intro M q b qEnd hc; cases hc
 
-include hA in
+include hA hAr in
 /-- the outermost loop of `B`, replayed as the loop at level 1 inside `… | B` followed by the outer pipes -/
 theorem pipe_chain (hB : B.e.ty = .eof) {c : Call N} {o : Out N} (h : R T c o) :
     ∀ left q b qEnd, c = .loop 0 left q → o = .node b qEnd → qEnd.after = A.e :: A.rest →
@@ -131,7 +131,7 @@ theorem pipe_chain (hB : B.e.ty = .eof) {c : Call N} {o : Out N} (h : R T c o) :
       rcases ht' with rfl | ⟨_, _, rfl⟩
       · omega
       · rw [T_power, hB]; decide
-    obtain ⟨X, qEnd', hRX, hrelX, hev⟩ := outer_chain hA hB hD _ _ _ _ rfl rfl hend ⟨t, rest, hafter, hle⟩ n q' hn hrel
+    obtain ⟨X, qEnd', hRX, hrelX, hev⟩ := outer_chain hA hAr hB hD _ _ _ _ rfl rfl hend ⟨t, rest, hafter, hle⟩ n q' hn hrel
       (.pipe L0 left) (fun ft d => eval ft L0 d) (fun ft d => eval_pipe ft L0 left d)
     exact ⟨left, q', X, qEnd', hstop, hRX, hrelX, hev⟩
   induction h with
@@ -148,7 +148,7 @@ theorem pipe_chain (hB : B.e.ty = .eof) {c : Call N} {o : Out N} (h : R T c o) :
     · subst ho
       exact low (R.step hafter hlt hled hloop) hend hafter hle n q' hn hrel L0
     · obtain ⟨r', ha', hadv⟩ := hrel.cons hA hafter (pow_pos_ne_eof (by rw [← T_power]; exact hlt))
-      obtain ⟨p1', hp1, hR1⟩ := R_moves hA (Or.inl hB) hled (n + 1) q'.advance (by simp only [need]; omega) hadv trivial
+      obtain ⟨p1', hp1, hR1⟩ := R_moves hA (by rw [hB]; rfl) hAr hled (n + 1) q'.advance (by simp only [need]; omega) hadv trivial
       obtain ⟨r1, q1', X, qEnd', hL1, hL0, hrelX, hev⟩ := ih2 _ _ _ _ rfl ho hend (n + 1) p1' (by omega) hp1 L0
       exact ⟨r1, q1', X, qEnd', R.step ha' (by omega) hR1 hL1, hL0, hrelX.mono (Nat.le_succ n), hev⟩
   | _ => intro left q b qEnd hc; cases hc
@@ -177,8 +177,8 @@ theorem pipe_of_parses {As Bs : List Token} {eA eB pt : Token} {a b : Node N}
   -- the A side
   have hrelA : CRel SA SA' 0 ⟨[], As ++ [eA]⟩ ⟨[], As ++ pt :: (Bs ++ [eB])⟩ := ⟨[], As, Nat.le_refl _, rfl, rfl, rfl, rfl⟩
   obtain ⟨rA', haA', hadvA⟩ := hrelA.cons (A := SA) heA hafterA (nud_not_eof hnudA)
-  obtain ⟨pA1', hpA1, hRnudA⟩ := R_moves (A := SA) (B := SA') heA (Or.inr hpt) hnudA 1 _ (Nat.le_refl _) hadvA trivial
-  obtain ⟨pEndA', hrelEndA, hresume⟩ := loop0_resume (A := SA) (B := SA') heA (Or.inr hpt) hloopA _ _ _ _ rfl rfl rfl 1 pA1'
+  obtain ⟨pA1', hpA1, hRnudA⟩ := R_moves (A := SA) (B := SA') heA (by show followerOK pt.ty = true; rw [hpt]; rfl) rfl hnudA 1 _ (Nat.le_refl _) hadvA trivial
+  obtain ⟨pEndA', hrelEndA, hresume⟩ := loop0_resume (A := SA) (B := SA') heA rfl (by show followerOK pt.ty = true; rw [hpt]; rfl) hloopA _ _ _ _ rfl rfl rfl 1 pA1'
     (Nat.le_refl _) hpA1
   -- the state reached at the end of A inside `A | B`
   obtain ⟨Y, X0, _, hb1, hb2, ha1, ha2⟩ := hrelEndA
@@ -195,8 +195,8 @@ theorem pipe_of_parses {As Bs : List Token} {eA eB pt : Token} {a b : Node N}
   -- the B side, started right after the pipe
   have hrelB : CRel SB SB' 0 ⟨[], Bs ++ [eB]⟩ ⟨pt :: As.reverse, Bs ++ [eB]⟩ := ⟨[], Bs, Nat.le_refl _, rfl, rfl, rfl, rfl⟩
   obtain ⟨rB', haB', hadvB⟩ := hrelB.cons (A := SB) heB hafterB (nud_not_eof hnudB)
-  obtain ⟨pB1', hpB1, hRnudB⟩ := R_moves (A := SB) (B := SB') heB (Or.inl heB) hnudB 1 _ (Nat.le_refl _) hadvB trivial
-  obtain ⟨r1, q1', X, qEnd', hL1, hL0, hrelEndB, hev⟩ := pipe_chain (A := SB) (B := SB') heB heB hloopB _ _ _ _ rfl rfl rfl 1 pB1'
+  obtain ⟨pB1', hpB1, hRnudB⟩ := R_moves (A := SB) (B := SB') heB (by show followerOK eB.ty = true; rw [heB]; rfl) rfl hnudB 1 _ (Nat.le_refl _) hadvB trivial
+  obtain ⟨r1, q1', X, qEnd', hL1, hL0, hrelEndB, hev⟩ := pipe_chain (A := SB) (B := SB') heB rfl heB hloopB _ _ _ _ rfl rfl rfl 1 pB1'
     (Nat.le_refl _) hpB1 a
   obtain ⟨Y2, X2, _, hc1, hc2, hd1, hd2⟩ := hrelEndB
   have hX2 : X2 = [] := by
